@@ -119,7 +119,7 @@ func Files() []File {
 	ext := File{Base: "p2ext", Pkg: "verif.p2ext", Syntax: "proto2", Features: []string{"proto2", "extensions"}}
 	ext.Enums = []E{{Name: "Color", Values: []EV{{"C_ZERO", 0}, {"C_ONE", 1}, {"C_NEG", -1}}}}
 	var xs []X
-	for i, k := range []string{"int32", "int64", "uint64", "sint32", "sint64", "fixed32", "fixed64", "bool", "string", "bytes", "double", "float"} {
+	for i, k := range []string{"int32", "int64", "uint64", "sint32", "sint64", "fixed32", "fixed64", "bool", "string", "bytes", "double", "float", "uint32", "sfixed32", "sfixed64"} {
 		xs = append(xs, X{Extendee: "Base", F: F{Name: "e_" + k, Num: int32(100 + i), Kind: k, Card: "opt"}})
 	}
 	xs = append(xs, X{Extendee: "Base", F: F{Name: "e_msg", Num: 120, Kind: "message", Card: "opt", Type: "Leaf"}},
@@ -128,7 +128,13 @@ func Files() []File {
 		{Name: "Leaf", Fields: []F{{Name: "a", Num: 1, Kind: "int32", Card: "opt"}, {Name: "s", Num: 2, Kind: "string", Card: "opt"}}},
 		{Name: "Base", Fields: []F{{Name: "id", Num: 1, Kind: "int32", Card: "opt"}, {Name: "name", Num: 2, Kind: "string", Card: "opt"}}, ExtRanges: [][2]int32{{100, 200}}},
 		{Name: "Decl", Fields: []F{{Name: "d", Num: 1, Kind: "int32", Card: "opt"}}, Exts: xs},
+		// the same extendee extended from a second message scope and from the file scope
+		{Name: "Decl2", Fields: []F{{Name: "d", Num: 1, Kind: "int32", Card: "opt"}}, Exts: []X{
+			{Extendee: "Base", F: F{Name: "e2_int32", Num: 150, Kind: "int32", Card: "opt"}},
+			{Extendee: "Base", F: F{Name: "e2_string", Num: 151, Kind: "string", Card: "opt"}}}},
 	}
+	ext.Exts = []X{{Extendee: "Base", F: F{Name: "f_int64", Num: 160, Kind: "int64", Card: "opt"}},
+		{Extendee: "Base", F: F{Name: "f_msg", Num: 161, Kind: "message", Card: "opt", Type: "Leaf"}}}
 	files = append(files, ext)
 
 	// well-known type imports (google flavours)
@@ -203,6 +209,28 @@ func Files() []File {
 		{Name: "Order", Fields: []F{{Name: "items", Num: 1, Kind: "message", Card: "rep", Type: "Order.Item"}},
 			Nested: []M{{Name: "Item", Fields: []F{{Name: "id", Num: 1, Kind: "int32", Card: "req"}}}}},
 		{Name: "Other", Fields: []F{{Name: "must", Num: 1, Kind: "bool", Card: "req"}}},
+	}, nil, nil)
+	// field numbers at which the tag key grows by a byte, and the largest one
+	atom("a3fnum", "proto3", []string{"field-number-boundaries"}, nil, []M{
+		{Name: "Leaf", Fields: []F{{Name: "a", Num: 1, Kind: "int32", Card: "imp"}, {Name: "b", Num: 2048, Kind: "string", Card: "imp"}}},
+		{Name: "FN", Fields: []F{
+			{Name: "f15", Num: 15, Kind: "int32", Card: "imp"}, {Name: "f16", Num: 16, Kind: "string", Card: "imp"},
+			{Name: "f2047", Num: 2047, Kind: "sint64", Card: "rep"}, {Name: "f2048", Num: 2048, Kind: "bool", Card: "imp"},
+			{Name: "f2049", Num: 2049, Kind: "map", MapKey: "int32", MapVal: "string"},
+			{Name: "f262143", Num: 262143, Kind: "bytes", Card: "imp"}, {Name: "f262144", Num: 262144, Kind: "message", Card: "imp", Type: "Leaf"},
+			{Name: "f33554431", Num: 33554431, Kind: "fixed32", Card: "imp"}, {Name: "f33554432", Num: 33554432, Kind: "double", Card: "rep"},
+			{Name: "f16777216", Num: 16777216, Kind: "int64", Card: "imp"},
+			{Name: "fmax", Num: 536870911, Kind: "string", Card: "rep"},
+			{Name: "o2048", Num: 4096, Kind: "int32", Card: "imp", Oneof: "u"}, {Name: "o4097", Num: 4097, Kind: "message", Card: "imp", Type: "Leaf", Oneof: "u"}}},
+	}, nil, nil)
+	atom("a2fnum", "proto2", []string{"field-number-boundaries"}, nil, []M{
+		{Name: "Leaf", Fields: []F{{Name: "a", Num: 1, Kind: "int32", Card: "opt"}, {Name: "b", Num: 2048, Kind: "string", Card: "req"}}},
+		{Name: "FN", Fields: []F{
+			{Name: "f15", Num: 15, Kind: "int32", Card: "opt"}, {Name: "f16", Num: 16, Kind: "string", Card: "opt"},
+			{Name: "f2047", Num: 2047, Kind: "sint32", Card: "rep"}, {Name: "f2048", Num: 2048, Kind: "bool", Card: "req"},
+			{Name: "f262143", Num: 262143, Kind: "bytes", Card: "opt"}, {Name: "f262144", Num: 262144, Kind: "message", Card: "opt", Type: "Leaf"},
+			{Name: "f33554431", Num: 33554431, Kind: "sfixed32", Card: "opt"}, {Name: "f33554432", Num: 33554432, Kind: "fixed64", Card: "rep"},
+			{Name: "fmax", Num: 536870911, Kind: "bytes", Card: "rep"}}},
 	}, nil, nil)
 	for _, k := range Kinds15 {
 		atom("a3k"+k, "proto3", []string{"kind-" + k}, nil, []M{{Name: "K", Fields: []F{
